@@ -21,7 +21,7 @@ def run(ctx: Context) -> None:
         "data[:n] with n = min(len(data), flow) and flow = min(local_flow_control_window(stream_id), max_outbound_frame_size) of the same "
         "stream; R2 (async tree) no suspension point lies between the last window read and send_data, so concurrent uploads cannot "
         "invalidate the value (on the sync tree the same region must be one critical section - C08.R6); R3 the wait loop runs while "
-        "flow == 0, re-reads both quantities after every read of events and has no other exit; R4 the split is lossless; R5 credit return: "
+        "flow <= 0 (a window can legally be negative), re-reads both quantities after every read of events and has no other exit; R4 the split is lossless; R5 credit return: "
         "every DataReceived is acknowledged with its flow_controlled_length on its own stream and flushed before the next read; R6 the "
         "2**24 connection- and stream-level window increments follow initiate_connection / send_headers."
     )
@@ -56,7 +56,14 @@ def run(ctx: Context) -> None:
                 rebound.get("local_flow") == "self._h2_state.local_flow_control_window(stream_id)" and rebound.get("max_frame_size") == "self._h2_state.max_outbound_frame_size" \
                 and rebound.get("flow") == "min(local_flow,max_frame_size)"
             rep.ob("C13.R3", fkey(tree, wf, "wait-loop"), ok, where(wf, l),
-                   "waits exactly while flow == 0 and re-reads window and frame size after every event read" if ok else f"wait loop: test over flow {tt}, exits {len(exits)}, re-reads {rebound}")
+                   "waits while there is no credit (true at 0, false at 1 and 16384) and re-reads window and frame size after every event read" if ok else f"wait loop: test over flow {tt}, exits {len(exits)}, re-reads {rebound}")
+            # RFC 9113 6.9.2: a SETTINGS_INITIAL_WINDOW_SIZE decrease can make the window NEGATIVE; the sender must keep waiting
+            neg = {v: peval(l.test, {"flow": v}) for v in (-1, -64535)}
+            okn = all(r is not UNKNOWN and bool(r) for r in neg.values())
+            rep.ob("C13.R3", fkey(tree, wf, "wait-loop-negative-window"), okn, where(wf, l),
+                   "the wait loop also waits while the window is negative" if okn else
+                   f"wait loop `while {ast.unparse(l.test)}` ends when the window is negative ({neg}): after a SETTINGS_INITIAL_WINDOW_SIZE decrease the returned flow is < 0, "
+                   "`data[:min(len(data), flow)]` is then larger than the window and h2 refuses the send - the upload fails instead of resuming when the window reopens")
             evc = [c for s in reads for c in ast.walk(s) if isinstance(c, ast.Call) and norm(c.func) == "self._receive_events"]
             rep.ob("C13.R3", fkey(tree, wf, "blocking-read"), bool(evc) and all([norm(a) for a in c.args] == ["request"] and not c.keywords for c in evc), where(wf, l),
                    "the wait reads from the network without a stream id (blocks until new frames arrive even when events are pending)")
